@@ -55,6 +55,14 @@ type viewPtr struct {
 	n    int // bytes
 }
 
+// symElem is a pointer to cells[idx] with a symbolic (already bounds-checked) index
+// over scalar cells: loads become ite chains, stores concretize the index.
+type symElem struct {
+	cells []value
+	idx   *term.Term
+	w     int // element width (0 = bool)
+}
+
 // opaque is a native object: the engine only passes it around.
 type opaque struct {
 	tag string
